@@ -166,6 +166,12 @@ def handleCue (line : String) : String :=
           | some s => if s.startsWith "k:" then some (Step.key (s.drop 2).toString) else if s.startsWith "c:" then some (Step.cond (s.drop 2).toString) else none
           | none => none)
       | _ => none
+    -- the root fields offered at the `$` part
+    if pos == "offers" then
+      match offeredFields root [] cp with
+      | none => "ERR"
+      | some l => "OFF " ++ ",".intercalate ((l.map fun f => hex f.toUTF8.toList).toArray.qsort (· < ·)).toList
+    else
     if pos == "elem" && steps.isSome then
       match validateS root (steps.getD []) cp with
       | .acc t io => s!"ACC {t} {io}"
